@@ -49,7 +49,7 @@ def run(c):
     if c.replay:
         return replay(c)
     W = 6
-    res = c.tlc_must_pass("gsp", "MC_Fetcher", cfg=c.pick("MC_Fetcher_quick", "MC_Fetcher"), workers=W, timeout=1500)
+    res = c.tlc_must_pass("gsp", "MC_Fetcher", cfg=c.pick("MC_Fetcher_quick", "MC_Fetcher_thorough"), workers=W, timeout=1500)
     c.log("MC_Fetcher: %d distinct states, safety invariants hold on the specification" % res.distinct)
     vac = c.tlc("gsp", "MC_Fetcher", cfg="MC_Fetcher_vacuity", workers=2, timeout=600, count=False)
     if "EndAlwaysPossible" not in vac.invariant_violated:
@@ -64,7 +64,7 @@ def run(c):
     bylen = {}
     for line in open(part):
         bylen.setdefault(len(json.loads(line)["script"]), []).append(line)
-    caps = c.pick({5: 700}, {6: 8000})
+    caps = c.pick({5: 700}, {6: 5000})
     with open(scen, "w") as out:
         for L in sorted(bylen):
             lines = bylen[L]
@@ -91,6 +91,8 @@ def run(c):
     r = gsp_util.validate_many(c, "gsp", "FetcherTrace", trace, parallel=W, lines_per_piece=40000, max_rej_piece=4, max_rej_total=10)
     c.log("fetcher: %d scenarios, %d lines validated, %d rejections" % (r["scenarios"], r["validated_lines"], len(r["rejections"])))
 
+    for rej in r["rejections"]:
+        c.log("rejected (to be run again):", classify(rej), json.dumps(rej["record"]), gsp_util.scenario_text(rej["scenario"][:rej["line"]], 40))
     # ---- every rejection is timing-dependent in principle: run the script again (twice if it then passes)
     unreproduced = 0
     confirmed = []
@@ -109,9 +111,13 @@ def run(c):
             with open(part, "w") as f:
                 f.writelines(lines[i] for i in todo)
             tr = c.path("fetch_rerun_trace_%d.ndjson" % attempt)
-            st2 = run_scripts(c, part, tr, 8)
-            if st2.get("discarded_noisy", 0):
-                raise vlib.Infra("host too noisy: a re-run of a rejected script was discarded (worst %d us)" % st2.get("worst_noise_us", 0))
+            for tries in range(4):
+                st2 = run_scripts(c, part, tr, 4)
+                if not st2.get("discarded_noisy", 0):
+                    break
+            else:
+                raise vlib.Infra("host too noisy: re-runs of a rejected script were discarded four times (worst %d us); rejected: %s" % (
+                    st2.get("worst_noise_us", 0), [classify(x) for x in r["rejections"]]))
             r2 = gsp_util.validate_many(c, "gsp", "FetcherTrace", tr, parallel=W, max_rej_piece=50, max_rej_total=50)
             again = {}
             for rej2 in r2["rejections"]:
